@@ -19,6 +19,8 @@ func genMembershipPlan(tp *simrt.Tape, seed uint64, tier string) any {
 	ng := 1 + tp.Weighted(3, 2)
 	for i := 0; i < ng; i++ {
 		g := confGroup{Name: fmt.Sprintf("g%d", i+1), Users: stdUsers(), Wildcard: &confUser{Role: "present"}}
+		// an entry with an explicit list of permissions, used by several clients
+		g.Users = append(g.Users, confUser{Name: "shared", Pass: "pw8", Raw: []string{"message", "caption", "token"}})
 		p.Groups = append(p.Groups, g)
 	}
 	p.Clients = 2 + tp.Draw(4)
@@ -26,7 +28,9 @@ func genMembershipPlan(tp *simrt.Tape, seed uint64, tier string) any {
 	genConnectAll(tp, p)
 	users := stdUsers()
 	pickUser := func(c int) (string, string) {
-		switch tp.Weighted(3, 4, 2) {
+		switch tp.Weighted(3, 4, 2, 2) {
+		case 3:
+			return "shared", "pw8"
 		case 0: // an operator
 			u := users[tp.Draw(2)]
 			return u.Name, u.Pass
@@ -54,11 +58,15 @@ func genMembershipPlan(tp *simrt.Tape, seed uint64, tier string) any {
 		n += tp.Draw(30)
 	}
 	acts := []string{"op", "unop", "present", "unpresent", "shutup", "unshutup"}
+	descFault := p.Faults && tp.Chance(1, 4)
+	broken := map[string]bool{}
 	for k := 0; k < n; k++ {
 		c := tp.Draw(p.Clients)
-		w := []int{4, 3, 8, 2, 3, 2, 2, 1, 1, 1}
+		w := []int{4, 3, 8, 2, 3, 2, 2, 1, 1, 1, 0}
 		if !p.Faults {
 			w[7], w[8] = 0, 0
+		} else if descFault {
+			w[10] = 2
 		}
 		switch tp.Weighted(w...) {
 		case 0:
@@ -84,6 +92,30 @@ func genMembershipPlan(tp *simrt.Tape, seed uint64, tier string) any {
 			p.Ops = append(p.Ops, confOp{Kind: "stall", C: c, Flag: false})
 		case 9:
 			p.Ops = append(p.Ops, confOp{Kind: "close", C: c})
+		case 10:
+			// the description file of a group is unreadable for a while (half
+			// written by an editor, say) and then comes back; joins and the
+			// periodic update look at it meanwhile
+			g := p.Groups[tp.Draw(ng)].Name
+			switch {
+			case !broken[g]:
+				p.Ops = append(p.Ops, confOp{Kind: "breakdesc", Group: g})
+				broken[g] = true
+			case tp.Chance(1, 2):
+				p.Ops = append(p.Ops, confOp{Kind: "update"})
+			default:
+				p.Ops = append(p.Ops, confOp{Kind: "fixdesc", Group: g})
+				broken[g] = false
+			}
+		}
+	}
+	for _, g := range p.Groups {
+		if broken[g.Name] {
+			p.Ops = append(p.Ops, confOp{Kind: "fixdesc", Group: g.Name})
+			// somebody joins the repaired group
+			c := tp.Draw(p.Clients)
+			u, pw := pickUser(c)
+			p.Ops = append(p.Ops, confOp{Kind: "join", C: c, Group: g.Name, User: u, Pass: pw})
 		}
 	}
 	return p
@@ -245,6 +277,32 @@ func runMembership(c *Ctx, plan any) {
 				c.Violation("C14.view-differs", "client %s (group %s): %s; events it received:%s", sc.id, g.Name, d, hist)
 				return
 			}
+		}
+	}
+	// a live client that was told it had joined a group, and neither left
+	// nor was thrown out since, is a member of that group as the server's
+	// table has it
+	for _, sc := range w.clients {
+		if !sc.alive() || !sc.handshaken || len(sc.joinResults) == 0 {
+			continue
+		}
+		last := sc.joinResults[len(sc.joinResults)-1]
+		if last.Kind != "join" {
+			continue
+		}
+		gname, _ := last.M["group"].(string)
+		known := false
+		for _, g := range p.Groups {
+			if g.Name == gname {
+				known = true
+			}
+		}
+		if !known {
+			continue
+		}
+		if _, ok := groupTruth(gname)[sc.id]; !ok {
+			c.Violation("C14.member-not-listed", "client %s was told that it had joined group %s, has not left it and has not been thrown out, but the group of that name does not list it among its members (%v): it is attached to a group object that is no longer the group, and hears nothing of those who join now", sc.id, gname, sortedKeys(groupTruth(gname)))
+			return
 		}
 	}
 	// live clients that are members of no group have an empty list
